@@ -414,7 +414,11 @@ def run_impl(script_args, input_obj=None, timeout=900, extra_env=None):
 
 def build_native():
     rc, out = _run(['sh', str(ROOT / 'native' / 'build.sh')], timeout=300, env={'REPO': str(REPO)})
-    return rc == 0, out
+    m = re.search(r'^NATIVE_LIB=(.+)$', out, re.M)
+    if rc == 0 and m:
+        # this process and every child it starts load THIS build (native/pyshim/_replicat_adapters.py reads the variable)
+        os.environ['VERIF_NATIVE_LIB'] = m.group(1).strip()
+    return rc == 0 and bool(m), out
 
 
 # --------------------------------------------------------------------------- known findings
